@@ -18,6 +18,8 @@ What is modelled, branch by branch:
   * `Warn` — warnResponseWrapper: WriteHeader records the first status and forwards *the recorded* status;
     Write forwards WriteHeader(200) first when nothing was recorded, then tees to client and buffer;
     Flush passes through (without touching the wrapper's own state).
+  * `validatedStatus` — the status handed to ValidateResponse: the wrapper's recorded status, 200 when that
+    is 0 (nothing recorded — or WriteHeader(0) recorded; the code tests `status == 0`).
   * `middleware` — FindRoute error → log + errFunc(404, ErrCodeCannotFindRoute), return; ValidateRequest
     error → log + errFunc(400, ErrCodeRequestInvalid), return; handler against the wrapper; ValidateResponse
     on (wrapper status, shared header map, wrapper buffer); error → log, and errFunc(500,
@@ -205,6 +207,9 @@ structure Outcome where
   logs : List LogKind
   deriving DecidableEq, Repr
 
+/-- `status := wr.statusCode(); if status == 0 { status = http.StatusOK }` -/
+def validatedStatus (n : Nat) : Nat := if n == 0 then 200 else n
+
 def middleware (cfg : Cfg) (env : Env) (ops : List Op) : Outcome :=
   if !env.routeFound then
     { handlerRan := false, client := runDirect {} (cfg.errOps .cannotFindRoute),
@@ -214,7 +219,7 @@ def middleware (cfg : Cfg) (env : Env) (ops : List Op) : Outcome :=
       errCalls := [.requestInvalid], logs := [.request] }
   else if cfg.strict then
     let w := Strict.run {} ops
-    if env.respOK w.status w.client.hdr w.buf then
+    if env.respOK (validatedStatus w.status) w.client.hdr w.buf then
       { handlerRan := true, client := w.flushOut, errCalls := [], logs := [] }
     else
       { handlerRan := true, client := runDirect w.client (cfg.errOps .responseInvalid),
@@ -223,7 +228,7 @@ def middleware (cfg : Cfg) (env : Env) (ops : List Op) : Outcome :=
     let w := Warn.run {} ops
     if w.client.panicked then
       { handlerRan := true, client := w.client, errCalls := [], logs := [] }
-    else if env.respOK w.status w.client.hdr w.buf then
+    else if env.respOK (validatedStatus w.status) w.client.hdr w.buf then
       { handlerRan := true, client := w.client, errCalls := [], logs := [] }
     else
       { handlerRan := true, client := w.client, errCalls := [], logs := [.response] }
@@ -305,13 +310,6 @@ def Meets (o : Outcome) (s : SpecOut) : Prop :=
 def meetsB (o : Outcome) (s : SpecOut) : Bool :=
   decide (o.handlerRan = s.handlerRan) && decide (o.client.seen = s.seen) && decide (o.errCalls = s.errCalls) &&
   decide (o.client.panicked = s.panicked) && (match s.full with | some c => decide (o.client = c) | none => true)
-
-/-- **Exclusion (finding F-C14-1).** The handler returns without any WriteHeader/Write, so the wrapper reports
-status 0 to ValidateResponse although the client receives 200; the class is where that changes the verdict
-in strict mode. -/
-def StatusUnrecorded (cfg : Cfg) (env : Env) (ops : List Op) : Bool :=
-  cfg.strict && env.routeFound && env.reqOK && (wroteStatus ops).isNone &&
-  (env.respOK 0 (finalHdr ops) [] != env.respOK 200 (finalHdr ops) [])
 
 /-- spec of the older handler: request-only gate, then transparent -/
 def vspec (encOps : ReqFail → List Op) (fail : ReqFail) (ops : List Op) : VOutcome :=
